@@ -1192,7 +1192,7 @@ func c14ConcGen(t *rapid.T) c14ConcCase {
 	case verifkit.Thorough():
 		c.Reps = 40
 	default:
-		c.Reps = 10
+		c.Reps = 8
 	}
 	return c
 }
